@@ -119,10 +119,17 @@ Theorem C19_blacklisted_agent : forall ops h a,
 Proof. exact hub_blacklisted. Qed.
 Print Assumptions C19_blacklisted_agent.
 
-(** "rewards claimed on behalf go to the position owner" is a statement about token transfers of
-    the farm contracts; it is decided on the real contracts by the monitor of the executed matrix
-    (claimRewardsOnBehalf / claimDualYieldOnBehalf: reward balance delta of owner vs. caller), and
-    for the farm model by C05/C07's ledger (rewards are paid to the [c] of the operation). *)
+(** rewards claimed on behalf go to the position owner: for every list of paid positions, a
+    successful claim on behalf sends the whole reward to the common, non-zero original owner of all of
+    them, and the caller is authorised by exactly that owner.  (On the real contracts the executed
+    matrix compares the reward balance deltas of owner and caller for claimRewardsOnBehalf /
+    claimDualYieldOnBehalf.) *)
+Theorem C19_on_behalf_rewards_to_owner : forall h caller owners reward sends,
+  claim_on_behalf h caller owners reward = Ok sends ->
+  exists u, sends = [(u, reward)] /\ u <> 0 /\ owners <> [] /\ (forall o, In o owners -> o = u) /\
+            is_whitelisted h u caller = true.
+Proof. exact claim_on_behalf_to_owner. Qed.
+Print Assumptions C19_on_behalf_rewards_to_owner.
 
 (** ---- clause 3: paused or inactive means no user operation that moves funds *)
 
@@ -218,5 +225,7 @@ Example C19_nonvacuous :
     is_ok (Model.Pair.step q (AddInitial 7 2000000 6000000)) = false)) /\
   (let h := hub_run (mkHub [] [] 100) [HWhitelist 1 4; HWhitelist 1 5; HWhitelist 1 6; HRemoveWhitelist 1 5; HBlacklist 100 6] in
    is_whitelisted h 1 4 = true /\ is_whitelisted h 1 5 = false /\ is_whitelisted h 1 6 = false /\
-   is_whitelisted h 2 4 = false).
+   is_whitelisted h 2 4 = false /\
+   claim_on_behalf h 4 [1; 1] 500 = Ok [(1, 500)] /\ claim_on_behalf h 5 [1; 1] 500 = Err EPerm /\
+   claim_on_behalf h 6 [1] 500 = Err EPerm /\ claim_on_behalf h 4 [1; 2] 500 = Err EGuard).
 Proof. vm_compute. repeat split. Qed.
